@@ -697,11 +697,12 @@ func (rn *runner) opDA() {
 	case k < 7 && len(cp) > 0:
 		d := cp[r.Intn(len(cp))]
 		a := 2 + r.Intn(4)
-		var idx []int64
-		for j := 0; j <= r.Intn(len(d.ShardDoubleHashes)); j++ {
-			idx = append(idx, int64(r.Intn(len(d.ShardDoubleHashes))))
-		}
+		idx, shape := rn.indexShape(len(d.ShardDoubleHashes))
 		w.queue("da-invalidity", a, 3_000_000, &datypes.MsgSubmitInvalidity{Sender: w.h.Accts[a].Addr.String(), MetadataUri: d.MetadataUri, Indices: idx})
+		rn.st.Count("da-invalidity-shape:" + shape)
+		rn.st.Nontriv("inval|" + shape)
+	case len(ch) > 0 && r.Chance(1, 3):
+		rn.opDAProofTx(ch)
 	case len(ch) > 0:
 		// validity proofs written straight into the store (the tally reads sender and indices only)
 		d := ch[r.Intn(len(ch))]
@@ -724,6 +725,84 @@ func (rn *runner) opDA() {
 			}
 		}
 		rn.st.Count("da:proofs-stored")
+	}
+}
+
+// index lists of every shape for an item of n shards: the handler of MsgSubmitInvalidity does
+// not range-check them (known finding C07-F1), so whatever is sent is stored and read by the
+// end blocker
+func (rn *runner) indexShape(n int) ([]int64, string) {
+	r := rn.r
+	N := int64(n)
+	switch r.Intn(12) {
+	case 0:
+		return []int64{N}, "eq-count"
+	case 1:
+		return []int64{N + 1, 0}, "count+1"
+	case 2:
+		return []int64{-1}, "minus-one"
+	case 3:
+		return []int64{-9223372036854775808, 0}, "min-int64"
+	case 4:
+		return []int64{1 << 32}, "2^32"
+	case 5:
+		return []int64{0, 0, N - 1, N - 1, 0}, "duplicates"
+	case 6:
+		return []int64{}, "empty"
+	case 7:
+		return []int64{9223372036854775807, -1, N, 0}, "mixed"
+	default:
+		var idx []int64
+		for j := 0; j <= r.Intn(n); j++ {
+			idx = append(idx, int64(r.Intn(n)))
+		}
+		return idx, "in-range"
+	}
+}
+
+// opDAChallenge: one block carries a publication and the invalidity reports against it
+// (several senders, index lists of every shape); with threshold 0 .. 1 the end blocker of this
+// very block already reads them
+func (rn *runner) opDAChallenge() {
+	w, r := rn.w, rn.r
+	n := 1 + r.Intn(8)
+	pub := r.Intn(2)
+	m, uri := w.msgPublish(pub, n, r.Intn(n))
+	w.queue("da-publish", pub, 3_000_000, m)
+	used := map[int]bool{pub: true}
+	for k := 0; k < 1+r.Intn(3); k++ {
+		a := 2 + r.Intn(4)
+		if used[a] {
+			continue
+		}
+		used[a] = true
+		idx, shape := rn.indexShape(n)
+		w.queue("da-invalidity", a, 3_000_000, &datypes.MsgSubmitInvalidity{Sender: w.h.Accts[a].Addr.String(), MetadataUri: uri, Indices: idx})
+		rn.st.Count("da-invalidity-shape:" + shape)
+		rn.st.Nontriv("inval|" + shape)
+	}
+}
+
+// opDAProofTx: MsgSubmitValidityProof as a signed transaction by a validator operator with an
+// index list of any shape and bytes that are no proof (the handler must refuse it cleanly)
+func (rn *runner) opDAProofTx(items []datypes.PublishedData) {
+	w, r := rn.w, rn.r
+	if len(items) == 0 {
+		return
+	}
+	d := items[r.Intn(len(items))]
+	for i := range w.vals {
+		if !w.vals[i].Created || r.Chance(1, 2) {
+			continue
+		}
+		idx, shape := rn.indexShape(len(d.ShardDoubleHashes))
+		proofs := make([][]byte, len(idx))
+		for j := range proofs {
+			proofs[j] = []byte{1, 2, 3}
+		}
+		w.queue("da-proof", w.vals[i].Owner, 5_000_000, &datypes.MsgSubmitValidityProof{Sender: w.h.Accts[w.vals[i].Owner].Addr.String(),
+			ValidatorAddress: w.vals[i].Oper, MetadataUri: d.MetadataUri, Indices: idx, Proofs: proofs})
+		rn.st.Count("da-proof-shape:" + shape)
 	}
 }
 
@@ -877,7 +956,7 @@ func (rn *runner) history(nBlocks int) {
 	for b := 0; b < nBlocks && !rn.dead; b++ {
 		nops := r.Intn(4)
 		for k := 0; k < nops; k++ {
-			switch x := r.Intn(20); {
+			switch x := r.Intn(21); {
 			case x < 2:
 				rn.opPool()
 			case x < 5:
@@ -894,6 +973,8 @@ func (rn *runner) history(nBlocks int) {
 				rn.opShareClass()
 			case x < 17:
 				rn.opSend()
+			case x < 19:
+				rn.opDAChallenge()
 			default:
 				rn.opDA()
 			}
